@@ -134,6 +134,8 @@ type storeRun struct {
 	killTorn           bool
 	killPhase          string
 	listingsUnreliable bool
+	failedEvents       map[string]bool // events whose first write met an injected commit error and that were not written again yet
+	failedForGood      bool            // an update of an already stored event failed: the listings stay incomparable
 	sizeAtOpen         int64
 	wipeExpected       bool
 }
@@ -165,6 +167,32 @@ func (s *storeRun) apply(op *storeOp) {
 				m.order = append(m.order, op.key)
 				cr := ev.Creator()
 				m.byCreator[cr] = append(m.byCreator[cr], op.key)
+				if s.failedEvents[op.key] {
+					// first successful write of an event whose earlier write met an
+					// injected commit error: it takes its place in the listings (by
+					// topological index / by index), which are comparable again once
+					// no failed event is left
+					delete(s.failedEvents, op.key)
+					s.c.stats.probe("c16-event-written-again-after-commit-error")
+					topo := func(h string) int {
+						if h == op.key {
+							return ev.SimTopologicalIndex()
+						}
+						return eventFromDB(m.events[h]).SimTopologicalIndex()
+					}
+					idx := func(h string) int {
+						if h == op.key {
+							return ev.Index()
+						}
+						return eventFromDB(m.events[h]).Index()
+					}
+					sort.SliceStable(m.order, func(i, j int) bool { return topo(m.order[i]) < topo(m.order[j]) })
+					l := m.byCreator[cr]
+					sort.SliceStable(l, func(i, j int) bool { return idx(l[i]) < idx(l[j]) })
+					if len(s.failedEvents) == 0 && !s.failedForGood {
+						s.listingsUnreliable = false
+					}
+				}
 			}
 		}
 		s.record("event:"+op.key, err, func() { m.events[op.key] = op.data }, m.events[op.key], op.data)
@@ -217,8 +245,17 @@ func (s *storeRun) record(key string, err error, commit func(), old, new []byte)
 		s.model.doubt[key] = [][]byte{old, new}
 		if s.failNext && strings.HasPrefix(key, "event:") {
 			// a writer that saw this error would not go on using the event; the
-			// captured sequence does, so the listings are no longer comparable
+			// captured sequence does, so the listings are not comparable until the
+			// event has been written again successfully
 			s.listingsUnreliable = true
+			if old == nil {
+				if s.failedEvents == nil {
+					s.failedEvents = map[string]bool{}
+				}
+				s.failedEvents[strings.TrimPrefix(key, "event:")] = true
+			} else {
+				s.failedForGood = true
+			}
 		}
 		return
 	}
